@@ -402,6 +402,8 @@ func (c *FnCtx) havoc(st *State, fr *Frame, ms *loopModSet, why string) {
 	for a := range ms.cells {
 		k := cellKey{frame: fr.id, alloc: a}
 		et := a.Type().Underlying().(*types.Pointer).Elem()
-		st.cells[k] = c.freshValue(et, "hv$"+a.Comment)
+		v := c.freshValue(et, "hv$"+a.Comment)
+		c.assumeAllocatedSV(st, v, et)
+		st.cells[k] = v
 	}
 }
